@@ -768,6 +768,10 @@ func goCode(root string, unit string) string {
 		header("Model.GoSem", "Model.GoSlices", "Model.GoCtl", "Model.GoConv", "Model.Mime", "Generated.GoFeed", "Generated.GoHistory")
 		text, errs := translateUpdate(root)
 		emit("ui/ui.go ((*State).Update)", text, errs)
+	case "switch":
+		header("Model.GoSem", "Model.GoSlices", "Model.GoCtl", "Generated.GoFeed", "Generated.GoHistory")
+		text, errs := translateSwitch(root)
+		emit("ui/ui.go (switchTo, loadSurroundings and its loaders, subcommand, Subcommand, openUserInput, openFeed, SetWidthHeight)", text, errs)
 	case "hook":
 		header("Model.GoSem", "Model.GoSlices", "Model.GoStrings", "Generated.GoMime")
 		text, errs := translateHook(root)
